@@ -501,7 +501,17 @@ pub fn enumerate_faults(text: &str, root: &toml_edit::Item, single: Option<Fault
                     let want = if keys.is_empty() { format!("{}\n", e.message) } else { format!("{}\nin `{}`\n", e.message, keys.join(".")) };
                     // wording-tolerant: the message, and the exact key path (quoted) iff there is one
                     let tail = e.rendered.replacen(&e.message, "", 1);
-                    let ok = e.rendered.contains(&e.message) && if keys.is_empty() { !tail.contains('`') } else { tail.contains(&format!("`{}`", keys.join("."))) };
+                    // the path must appear as a whole (not as part of a longer path), however it is quoted
+                    let path = keys.join(".");
+                    let is_key_char = |ch: char| ch.is_alphanumeric() || ch == '.' || ch == '_' || ch == '-';
+                    let whole = |hay: &str| {
+                        hay.match_indices(&path).any(|(i, _)| {
+                            let before = hay[..i].chars().next_back();
+                            let after = hay[i + path.len()..].chars().next();
+                            !before.map(is_key_char).unwrap_or(false) && !after.map(is_key_char).unwrap_or(false)
+                        })
+                    };
+                    let ok = e.rendered.contains(&e.message) && (keys.is_empty() || whole(&tail));
                     if !ok {
                         out.violate(
                             "C15/5",
